@@ -152,8 +152,18 @@ pub fn run_case(c: &Case, st: &mut Stats, mode: &Mode) -> Check {
     for i in 0..n {
         for j in 0..i {
             if cookies[i] == cookies[j] {
-                st.exclude("cookie-collision");
-                return Ok(());
+                // flows built to differ in exactly one tuple component. A chance collision has
+                // probability 2^-32 per pair and depends on the key; a responder that does not tell
+                // the flows apart collides under every key: ask again under another key
+                let mut cfg2 = cfg.clone();
+                cfg2.key = [cfg.key[0] ^ 0x9e37_79b9_7f4a_7c15, cfg.key[1].rotate_left(17) ^ 0x51];
+                let s2 = Sut::new(&cfg2);
+                let (a, b) = (learn_cookie(&s2, &flows[i], 4242), learn_cookie(&s2, &flows[j], 4242));
+                if a.is_err() || a != b {
+                    st.exclude("cookie-collision");
+                    return Ok(());
+                }
+                vfail!("flows #{} and #{} of the case differ in one tuple component ({}:{} -> {}:{} vs {}:{} -> {}:{}) but got the same SYN cookie {:#010x}, and again the same under another key: a data segment acknowledging it is accepted on either", j, i, flows[j].net.cip, flows[j].sport, flows[j].net.sip, flows[j].dport, flows[i].net.cip, flows[i].sport, flows[i].net.sip, flows[i].dport, cookies[i]);
             }
         }
     }
